@@ -75,6 +75,15 @@ theorem intersection_slices_address (a b : Extent) :
     b.rmin + sl.2.1.1 = e.rmin ∧ b.rmin + sl.2.1.2 - 1 = e.rmax ∧ b.cmin + sl.2.2.1 = e.cmin ∧ b.cmin + sl.2.2.2 - 1 = e.cmax := by
   rw [intersectionSlices_eq, intersectionExtent_eq]; simp only; omega
 
+/-- the overlap test is symmetric -/
+theorem intersect_comm (a b : Extent) : intersect a b = intersect b a := by
+  rw [Bool.eq_iff_iff, intersect_iff', intersect_iff']; omega
+
+/-- the intersection extent does not depend on the order of the operands either -/
+theorem intersection_extent_comm (a b : Extent) (r c : Int) :
+    (intersectionExtent a b).mem r c ↔ (intersectionExtent b a).mem r c := by
+  rw [intersection_mem, intersection_mem]; exact And.comm
+
 /-- the centre of an extent is the shift that rebuilds it: `array_extent(shape(e), array_center(e)) = e` -/
 theorem array_center_roundtrip (e : Extent) :
     arrayExtent e.nrow e.ncol (arrayCenter e).1 (arrayCenter e).2 = e := by
@@ -188,6 +197,19 @@ theorem mul_extent (a b p : Fld K) (h : a.mulArr b = some p) (r c : Int) :
 
 /-- `A` and `B` share exactly the pixel (0, 0); `A` and `C` share none -/
 example : (Ex.A.mulArr Ex.B).map (fun p => p.extent) = some ⟨0, 0, 0, 0⟩ ∧ (Ex.A.mulArr Ex.C).isNone = true := by decide
+
+/-- **a product is empty in one order iff it is empty in the other**, and the two non-empty products occupy the same pixels
+(with a commutative multiplication they embed identically, by `mul_emb`) -/
+theorem mul_empty_comm (a b : Fld K) : a.mulArr b = none ↔ b.mulArr a = none := by
+  have hc := intersect_comm b.extent a.extent
+  unfold Fld.mulArr
+  by_cases h : intersect a.extent b.extent = true
+  · simp [h, hc]
+  · simp [h, hc]
+
+theorem mul_extent_comm (a b p q : Fld K) (hp : a.mulArr b = some p) (hq : b.mulArr a = some q) (r c : Int) :
+    p.extent.mem r c ↔ q.extent.mem r c := by
+  rw [mul_extent a b p hp, mul_extent b a q hq]; exact And.comm
 
 /-- two one-element fields **read as infinite constants** (`Fld.sem`), the property's literal reading: proved only for
 equal offsets, where the product is the one-element field holding the product of the constants.
@@ -375,6 +397,38 @@ example : boundaryL [⟨-3, 1, 2, 4⟩, ⟨0, 2, -5, 0⟩] = ⟨-3, 2, -5, 4⟩ 
 /-- wholly negative extents: the exact bounding box too (witness of the fixed defect: it used to be ⟨-9, 0, -8, 0⟩) -/
 example : boundaryL [⟨-9, -7, -4, -3⟩, ⟨-6, -5, -8, -6⟩] = ⟨-9, -5, -8, -3⟩ := by decide
 
+/-- **the bounding box does not depend on the order of the fields** (nor on repetitions): collections with the same
+members have the same `boundary` -/
+theorem boundary_order_independent (es es' : List Extent) (hne : es ≠ [])
+    (hM : ∀ e ∈ es, e.rmin ≤ 9223372036854775807 ∧ -9223372036854775807 ≤ e.rmax ∧
+                    e.cmin ≤ 9223372036854775807 ∧ -9223372036854775807 ≤ e.cmax)
+    (hm : ∀ e, e ∈ es ↔ e ∈ es') : boundaryL es = boundaryL es' := by
+  have hne' : es' ≠ [] := by
+    obtain ⟨e, he⟩ := List.exists_mem_of_ne_nil es hne
+    exact List.ne_nil_of_mem ((hm e).mp he)
+  have h1 := (boundary_is_bbox es hne hM).of_mem_iff hm
+  have h2 := boundary_is_bbox es' hne' (fun e he => hM e ((hm e).mpr he))
+  exact h1.unique h2
+
+/-- **the bounding box does not depend on the absolute position**: moving every extent by (d0, d1) moves `boundary` by
+(d0, d1) — at any distance from the origin and on either side of it (false before the /repo fix of the initial value:
+a wholly negative collection moved to positive coordinates lost the rows/columns up to 0) -/
+theorem boundary_translate (es : List Extent) (hne : es ≠ []) (d0 d1 : Int)
+    (hM : ∀ e ∈ es, e.rmin ≤ 9223372036854775807 ∧ -9223372036854775807 ≤ e.rmax ∧
+                    e.cmin ≤ 9223372036854775807 ∧ -9223372036854775807 ≤ e.cmax)
+    (hM' : ∀ e ∈ es, e.rmin + d0 ≤ 9223372036854775807 ∧ -9223372036854775807 ≤ e.rmax + d0 ∧
+                     e.cmin + d1 ≤ 9223372036854775807 ∧ -9223372036854775807 ≤ e.cmax + d1) :
+    boundaryL (es.map fun e => e.shift d0 d1) = (boundaryL es).shift d0 d1 := by
+  have h1 := (boundary_is_bbox es hne hM).shift d0 d1
+  have h2 := boundary_is_bbox (es.map fun e => e.shift d0 d1) (by simpa using hne) (by
+    intro e he
+    obtain ⟨e0, he0, rfl⟩ := List.mem_map.mp he
+    exact hM' e0 he0)
+  exact h2.unique h1
+/-- non-vacuity: the wholly negative pair moved by (+20, +30) and listed in the other order -/
+example : boundaryL (([⟨-9, -7, -4, -3⟩, ⟨-6, -5, -8, -6⟩] : List Extent).map fun e => e.shift 20 30) = ⟨11, 15, 22, 27⟩ ∧
+    boundaryL [⟨-6, -5, -8, -6⟩, ⟨-9, -7, -4, -3⟩] = boundaryL [⟨-9, -7, -4, -3⟩, ⟨-6, -5, -8, -6⟩] := by decide
+
 /-! ## Reduce -/
 section reduce
 variable {K : Type}
@@ -554,6 +608,35 @@ example : (reduce [Ex.A, Ex.B, Ex.D]).map (fun o => o.map fun p => (p.extent, p.
 /-- fixed point / termination on the same collection, with the minimal fuel -/
 example : firstPair (disjoint 3 ([Ex.A, Ex.C, Ex.B].map Group.single)) = none ∧
     firstPair ([Ex.A, Ex.C, Ex.B].map Group.single) = some (0, 2) := by decide
+
+/-- **reducing a collection that is already pairwise non-overlapping changes nothing**: every field comes back as it is, in
+order (no merge, no copy of the data) -/
+theorem reduce_of_disjoint (fs : List (Fld K))
+    (hdis : ∀ (i j : Nat) (_ : i < j) (hj : j < fs.length), intersect (fs[i]'(by omega)).extent fs[j].extent = false) :
+    reduce fs = fs.map some := by
+  rw [reduce_eq]
+  have hfp : firstPair (fs.map Group.single) = none := by
+    rw [firstPair_none_iff]
+    intro m k hmk hk
+    rw [List.length_map] at hk
+    simp only [List.getElem_map]
+    exact hdis m k hmk hk
+  have hd : disjoint fs.length (fs.map Group.single) = fs.map Group.single := by
+    cases fs.length with
+    | zero => rfl
+    | succ n => exact disjoint_succ_none n _ hfp
+  rw [hd, List.map_map]
+  apply List.map_congr_left
+  intro f _
+  rfl
+/-- non-vacuity: `A` and `C` share no pixel -/
+example : intersect Ex.A.extent Ex.C.extent = false ∧
+    (reduce [Ex.A, Ex.C]).map (fun o => o.map Fld.extent) = [some Ex.A.extent, some Ex.C.extent] := by decide
+
+/-- … and `reduce` is idempotent: reducing its own output returns it unchanged -/
+theorem reduce_idempotent (fs : List (Fld K)) (hpos : ∀ f ∈ fs, 0 < f.arr.s0 ∧ 0 < f.arr.s1)
+    (out : List (Fld K)) (hout : reduce fs = out.map some) : reduce out = out.map some :=
+  reduce_of_disjoint out (fun i j hij hj => reduce_disjoint fs hpos out hout i j hij hj)
 
 end reduce_out
 
@@ -891,6 +974,53 @@ example : Gen.insertIdx 2 2 9 9 3 3 = none ∧
 example : (insertArr (⟨⟨2, 2, fun i j => 1 + i + 2 * j⟩, -1, 1⟩ : Fld Int) Ex.T 10 id).get 0 1 = Ex.T.get 0 1 + 2 * 10 ∧
     (insertArr (⟨⟨2, 2, fun i j => 1 + i + 2 * j⟩, -1, 1⟩ : Fld Int) Ex.T 10 id).get 0 2 = Ex.T.get 0 2 + 4 * 10 ∧
     (insertArr (⟨⟨2, 2, fun i j => 1 + i + 2 * j⟩, -1, 1⟩ : Fld Int) Ex.T 10 id).get 1 2 = Ex.T.get 1 2 := by decide
+
+/-- **insert in embedding form**: with `post 0 = 0` (true of `id` and of `|·|²`) the sample `(i, j)` of the target receives
+`post (emb f (i − S0/2, j − S1/2)) · w` — the field's embedding on the infinite plane read at the target's own coordinates;
+nothing is added where the embedding is zero because the field does not reach there -/
+theorem insert_emb_plane (f : Fld K) (out : Arr K) (w : K) (post : K → K) (hpost : post 0 = 0) (i j : Int)
+    (hi : 0 ≤ i ∧ i < out.s0) (hj : 0 ≤ j ∧ j < out.s1) :
+    (insertArr f out w post).get i j = out.get i j + post (f.emb (i - out.s0 / 2) (j - out.s1 / 2)) * w := by
+  rw [insert_emb f out w post i j hi hj]
+  have fe : f.emb (i - out.s0 / 2) (j - out.s1 / 2) =
+      embAt f.extent f.arr.get (i - out.s0 / 2) (j - out.s1 / 2) := rfl
+  rw [fe]; unfold embAt
+  by_cases hb : f.extent.inb (i - out.s0 / 2) (j - out.s1 / 2) = true
+  · rw [if_pos hb, if_pos hb]
+  · rw [if_neg hb, if_neg hb, hpost, zero_mul]
+
+/-- the complex-field branch (`post = id`): `out' = out + emb f · w` on the target's window of the plane -/
+theorem insert_field_plane (f : Fld K) (out : Arr K) (w : K) (i j : Int)
+    (hi : 0 ≤ i ∧ i < out.s0) (hj : 0 ≤ j ∧ j < out.s1) :
+    (insertArr f out w id).get i j = out.get i j + f.emb (i - out.s0 / 2) (j - out.s1 / 2) * w :=
+  insert_emb_plane f out w id rfl i j hi hj
+
+/-- **product → insert in one statement** (what `Plane.multiply` followed by `Wavefront.field`/`intensity` does with one
+field): if `a * b` (at most one of them one-element, read as an infinite constant) is not empty, inserting it adds
+`post (emb a · emb b) · w` at every sample of the target -/
+theorem product_then_insert (a b p : Fld K) (hab : (a.size1 && b.size1) = false)
+    (ha : 0 < a.arr.s0 ∧ 0 < a.arr.s1) (hb : 0 < b.arr.s0 ∧ 0 < b.arr.s1) (hp : a.mul b = some p)
+    (out : Arr K) (w : K) (post : K → K) (hpost : post 0 = 0) (i j : Int)
+    (hi : 0 ≤ i ∧ i < out.s0) (hj : 0 ≤ j ∧ j < out.s1) :
+    (insertArr p out w post).get i j =
+      out.get i j + post (a.sem (i - out.s0 / 2) (j - out.s1 / 2) * b.sem (i - out.s0 / 2) (j - out.s1 / 2)) * w := by
+  rw [insert_emb_plane p out w post hpost i j hi hj]
+  have hsem := mul_sem a b hab ha hb (i - out.s0 / 2) (j - out.s1 / 2)
+  rw [hp] at hsem
+  simp only at hsem
+  rw [hsem]
+
+/-- an empty product inserts nothing, and then the pointwise product of the embeddings is zero on the whole plane -/
+theorem empty_product_is_zero (a b : Fld K) (hab : (a.size1 && b.size1) = false)
+    (ha : 0 < a.arr.s0 ∧ 0 < a.arr.s1) (hb : 0 < b.arr.s0 ∧ 0 < b.arr.s1) (hp : a.mul b = none) (r c : Int) :
+    a.sem r c * b.sem r c = 0 := by
+  have hsem := mul_sem a b hab ha hb r c
+  rw [hp] at hsem
+  exact hsem.symm
+
+/-- non-vacuity: `A * B` (one shared pixel, value 40) inserted with weight 2 into the 3×3 target `T` lands on the centre sample -/
+example : (Ex.A.mul Ex.B).map (fun p => ((insertArr p Ex.T 2 id).get 1 1, (insertArr p Ex.T 2 id).get 0 1)) =
+    some (Ex.T.get 1 1 + 40 * 2, Ex.T.get 0 1) := by decide
 
 end insert
 
